@@ -81,13 +81,14 @@ template<class T> std::string vstr(T v) {
 static char const* const sc_name[] = {"0", "1", "2", "i", "1+2i"};
 template<class T> int nscal() { return is_cx<T>{} ? 5 : 3; }
 template<class T> T   scal_of(int i) { switch(i) { case 0: return mk<T>(0, 0); case 1: return mk<T>(1, 0); case 2: return mk<T>(2, 0); case 3: return mk<T>(0, 1); default: return mk<T>(1, 2); } }
-static std::string sc_class(int i) { return i == 0 ? "=0" : (i <= 2 ? "!=0" : "=complex"); }
+static std::string sc_class(int i) { return i == 0 ? "=0" : "!=0"; }
 static char const* szc(long n) { return n == 0 ? "0" : (n == 1 ? "1" : "2+"); }
 
 // ------------------------------------------------------------------------------------------------ outcome of one configuration
 struct Res {
 	int         code = 0;  // 0 correct, 1 rejected by exception, 2 rejected by library assertion, 3 violation
 	std::string symptom, detail;
+	bool        escaped = false;  // damage reached the outermost guard row of a store: the process may be corrupted, the child exits after reporting
 	void flag(std::string const& s, std::string const& d) {
 		code = 3;
 		if(symptom.find(s) == std::string::npos) { symptom += (symptom.empty() ? "" : "+") + s; }
@@ -103,9 +104,7 @@ struct Desc {
 struct Shm {
 	long pos;
 	long n_correct, n_rej_exc, n_rej_assert, n_viol;
-	int  finished, has_viol;
-	char key[700];
-	char json[7000];
+	int  finished;
 };
 struct Driver {
 	enum { PARENT, CHILD, REPLAY } mode = PARENT;
@@ -114,9 +113,10 @@ struct Driver {
 	long grid_total = 0, mine = 0, nontrivial = 0, deaths = 0;
 	long skip_remaining = 0;           // parent: configurations of the current batch already executed by children
 	long cpos = 0, cstart = 0;         // child: position inside the batch, first position to execute
+	int  vfd = -1;                     // child: pipe for violation records
 	bool stopped = false;
 	std::string replay;
-	bool replay_found = false;
+	bool replay_found = false; long repeat = 1, replay_tag = -1, next_sample = 3000;
 	Res  replay_res; Desc replay_desc;
 	Shm* sh = nullptr;
 	std::string section_filter;       // replay: "<form>/<type>/" prefix of the wanted configuration
@@ -136,32 +136,48 @@ struct Driver {
 	// true if a section (operation form, element type) has to be enumerated at all
 	bool want(std::string const& form, char const* tc) const { return mode != REPLAY || replay.rfind(form + "/" + tc + "/", 0) == 0; }
 
-	template<class DescF, class ExecF> void step(bool nontriv, DescF&& descf, ExecF&& exec) {
+	// tag: the sizes of the configuration packed into a number (lets a replay skip most configurations without building their description)
+	template<class DescF, class ExecF> void step(long tag, bool nontriv, DescF&& descf, ExecF&& exec) {
 		long const g = gidx++;
 		if(mode == REPLAY) {
-			if(replay_found) { return; }
+			if(replay_found || tag != replay_tag) { return; }
 			Desc d = descf();
 			if(d.id != replay) { return; }
 			replay_found = true; replay_desc = d;
 			mc::cur_set(d.keyprefix, d.id);
 			replay_res = exec();
+			for(long i = 1; i < repeat; ++i) { Res again = exec(); if(again.code != replay_res.code || again.symptom != replay_res.symptom || again.detail != replay_res.detail) { replay_res.flag("nondeterministic", "a repeated execution gave a different outcome: " + again.symptom + " " + again.detail); } }
 			return;
 		}
 		if(g % nshards != shard) { return; }
 		if(mode == PARENT) {
+			if(nontriv && g >= next_sample && mc::R.samples.size() < 4) {
+				Desc d = descf(); mc::J j; j.s("replay", d.id); for(auto const& f : d.fields) { j.s(f.first, f.second); }
+				mc::R.sample(j.str(), 4); next_sample = g + 150000;
+			}
 			if(skip_remaining > 0) { --skip_remaining; ++mine; nontrivial += nontriv ? 1 : 0; return; }
 			if(stopped) { return; }
 			if(mc::past_deadline()) { stopped = true; mc::R.exhaustive = false; return; }
 			long done = 0;
 			while(done < batch) {
 				int err = memfd_create("blasmc_err", 0);
-				sh->pos = -1; sh->finished = 0; sh->has_viol = 0;
+				int pfd[2]; if(pipe(pfd) != 0) { std::perror("pipe"); std::exit(3); }
+				sh->pos = -1; sh->finished = 0;
 				std::fflush(stdout); std::fflush(stderr);
 				pid_t pid = fork();
-				if(pid == 0) { dup2(err, 2); close(err); mode = CHILD; cpos = 0; cstart = done; break; }
+				if(pid == 0) { dup2(err, 2); close(err); close(pfd[0]); vfd = pfd[1]; mode = CHILD; cpos = 0; cstart = done; break; }
+				close(pfd[1]);
+				std::string vio; { char buf[65536]; for(;;) { auto n = read(pfd[0], buf, sizeof buf); if(n <= 0) { break; } vio.append(buf, static_cast<std::size_t>(n)); } }
+				close(pfd[0]);
 				int st = 0; waitpid(pid, &st, 0);
+				for(std::size_t b = 0; b < vio.size();) {  // lines  key TAB json
+					auto e = vio.find('\n', b); if(e == std::string::npos) { break; }
+					auto t = vio.find('\t', b);
+					if(t != std::string::npos && t < e) { mc::R.violation(vio.substr(b, t - b), vio.substr(t + 1, e - t - 1)); }
+					b = e + 1;
+				}
 				if(WIFEXITED(st) && WEXITSTATUS(st) == 0 && sh->finished != 0) { done = batch; }
-				else if(WIFEXITED(st) && WEXITSTATUS(st) == 0 && sh->has_viol != 0) { mc::R.violation(sh->key, sh->json); done = sh->pos + 1; }
+				else if(WIFEXITED(st) && WEXITSTATUS(st) == 0 && sh->pos >= done) { done = sh->pos + 1; }   // the child left deliberately after configuration sh->pos
 				else {
 					std::string se = mc::read_fd_all(err);
 					std::string cause = WIFSIGNALED(st) ? ("signal " + std::to_string(WTERMSIG(st))) : ("exit " + std::to_string(WEXITSTATUS(st)));
@@ -190,13 +206,10 @@ struct Driver {
 			case 2: ++sh->n_rej_assert; break;
 			default: {
 				++sh->n_viol;
-				std::snprintf(sh->key, sizeof sh->key, "%s|%s", d.keyprefix.c_str(), r.symptom.c_str());
-				std::string js = record(d, r);
-				if(js.size() >= sizeof sh->json) { r.detail.resize(200); js = record(d, r); }
-				std::snprintf(sh->json, sizeof sh->json, "%s", js.c_str());
-				sh->has_viol = 1;
-				std::fflush(stderr);
-				_exit(0);
+				if(r.detail.size() > 900) { r.detail.resize(900); }
+				std::string line = d.keyprefix + "|" + r.symptom + "\t" + record(d, r) + "\n";
+				for(std::size_t o = 0; o < line.size();) { auto n = write(vfd, line.data() + o, line.size() - o); if(n <= 0) { break; } o += static_cast<std::size_t>(n); }
+				if(r.escaped) { std::fflush(stderr); _exit(0); }
 			}
 		}
 		if(p == batch - 1) { sh->finished = 1; std::fflush(stderr); _exit(0); }
@@ -211,37 +224,43 @@ enum { BN, BT, BP, BPT, NBASE };
 static char const* const bname[] = {"N", "T", "P", "PT"};
 enum { WI, WJ, WH, NWRAP };
 struct ML { int base, wrap; };
+// spelling used in the replay string
 static std::string lname(ML l) { return l.wrap == WI ? std::string(bname[l.base]) : std::string(l.wrap == WJ ? "J." : "H.") + bname[l.base]; }
+// layout class used in violation keys: H of a layout presents the adaptor with exactly the strides and pointer type of J of the transposed layout
+static std::string cname(ML l) { static int const tr[] = {BT, BN, BPT, BP}; return l.wrap == WH ? std::string("J.") + bname[tr[l.base]] : lname(l); }
 template<class T> std::vector<ML> mlayouts(bool conj_ok) {
 	std::vector<ML> r;
 	for(int w = 0; w < ((is_cx<T>{} && conj_ok) ? NWRAP : 1); ++w) { for(int b = 0; b < NBASE; ++b) { r.push_back(ML{b, w}); } }
 	return r;
 }
+static bool tripwire(long p, long W, long H) { return p < W || p >= (H - 1) * W; }
 
-// a logical R x C matrix operand.  Layout variants (all have the same view type):
-//  N  rows 1..R of a (R+2) x C store           (contiguous block, guard row above and below)
-//  P  rows 1..R, columns 2..2+C of a (R+2) x (C+3) store (padded sub-block)
-//  T  N-variant of the C x R storage, transposed;   PT  P-variant of the C x R storage, transposed
+// a logical R x C matrix operand in its own store.  Layout variants of the (unwrapped) r x c view (all have the same C++ type):
+//  N  rows 2..2+r of a (r+4) x c store                      (contiguous block; two guard rows above and below)
+//  P  rows 2..2+r, columns 2..2+c of a (r+4) x (c+3) store   (padded sub-block)
+//  T  N-variant of the c x r storage, .transposed();   PT  P-variant of the c x r storage, .transposed()
 // wrapper: I identity, J = blas::J(view) (conjugated), H = blas::H(view of the C x R operand) (conjugate-transposed)
 template<class T> struct Mat {
-	long R, C; ML l; long r, c;  // r x c: extents of the unwrapped view
+	long R, C; ML l; long r, c, W, H;
 	multi::array<T, 2> st;
 	std::vector<T>    raw0, before;
 	std::vector<char> mask;
 	char const* name;
-	static multi::extensions_t<2> ext(int b, long r, long c) {
-		switch(b) { case BN: return {r + 2, std::max(c, 1L)}; case BP: return {r + 2, c + 3}; case BT: return {c + 2, std::max(r, 1L)}; default: return {c + 2, r + 3}; }
+	static long width(int b, long r, long c) { switch(b) { case BN: return std::max(c, 1L); case BP: return c + 3; case BT: return std::max(r, 1L); default: return r + 3; } }
+	static long height(int b, long r, long c) { return (b == BN || b == BP ? r : c) + 4; }
+	Mat(char const* nm, ML l_, long R_, long C_, long padv) : R(R_), C(C_), l(l_), r(l_.wrap == WH ? C_ : R_), c(l_.wrap == WH ? R_ : C_), W(width(l_.base, r, c)), H(height(l_.base, r, c)),
+		st(multi::extensions_t<2>{H, W}, mk<T>(padv, padv + 12)), name(nm) {
+		mask.assign(static_cast<std::size_t>(W * H), 0);
+		for(long i = 0; i < r; ++i) { for(long j = 0; j < c; ++j) { mask[static_cast<std::size_t>(off(i, j))] = 1; } }
 	}
-	Mat(char const* nm, ML l_, long R_, long C_, long padv) : R(R_), C(C_), l(l_), r(l_.wrap == WH ? C_ : R_), c(l_.wrap == WH ? R_ : C_), st(ext(l_.base, r, c), mk<T>(padv, padv + 12)), name(nm) {
-		mask.assign(static_cast<std::size_t>(st.num_elements()), 0);
-		base_view([&](auto& v) { for(long i = 0; i < r; ++i) { for(long j = 0; j < c; ++j) { mask[static_cast<std::size_t>(&v[i][j] - st.data_elements())] = 1; } } });
-	}
+	// raw offset of element (i, j) of the unwrapped view: the harness's own arithmetic, independent of the library's layout code
+	long off(long i, long j) const { switch(l.base) { case BN: return (2 + i) * W + j; case BP: return (2 + i) * W + 2 + j; case BT: return (2 + j) * W + i; default: return (2 + j) * W + 2 + i; } }
 	template<class F> void base_view(F&& f) {
 		switch(l.base) {
-			case BN: { auto&& v = st({1, 1 + r}, {0, c}); f(v); break; }
-			case BP: { auto&& v = st({1, 1 + r}, {2, 2 + c}); f(v); break; }
-			case BT: { auto&& v = st({1, 1 + c}, {0, r}).transposed(); f(v); break; }
-			default: { auto&& v = st({1, 1 + c}, {2, 2 + r}).transposed(); f(v); break; }
+			case BN: { auto&& v = st({2, 2 + r}, {0, c}); f(v); break; }
+			case BP: { auto&& v = st({2, 2 + r}, {2, 2 + c}); f(v); break; }
+			case BT: { auto&& v = st({2, 2 + c}, {0, r}).transposed(); f(v); break; }
+			default: { auto&& v = st({2, 2 + c}, {2, 2 + r}).transposed(); f(v); break; }
 		}
 	}
 	// f(view of logical extents R x C)
@@ -254,10 +273,13 @@ template<class T> struct Mat {
 			f(v);
 		});
 	}
-	template<class V, class G> void fill(V& v, G gen) {
-		for(long i = 0; i < R; ++i) { for(long j = 0; j < C; ++j) { v[i][j] = gen(i, j); } }
+	// writes the logical contents into the store, then reads them back through plain indexing (these read-back values are what the reference uses)
+	template<class V, class G> void fill(V& v, G gen, Res& res) {
+		T* d = st.data_elements();
+		for(long i = 0; i < R; ++i) { for(long j = 0; j < C; ++j) { T x = gen(i, j); d[off(l.wrap == WH ? j : i, l.wrap == WH ? i : j)] = (l.wrap == WI ? x : cj(x)); } }
+		raw0.assign(d, d + W * H);
 		before = read(v);
-		raw0.assign(st.data_elements(), st.data_elements() + st.num_elements());
+		for(long i = 0; i < R; ++i) { for(long j = 0; j < C; ++j) { if(!(at(i, j) == gen(i, j))) { res.flag("view-mismatch", std::string(name) + "[" + std::to_string(i) + "][" + std::to_string(j) + "] reads " + vstr(at(i, j)) + " after " + vstr(gen(i, j)) + " was stored (harness or view defect)"); return; } } }
 	}
 	template<class V> std::vector<T> read(V& v) const {  // (indexing a const conjugated view does not compile on this tree)
 		std::vector<T> o(static_cast<std::size_t>(R * C));
@@ -265,21 +287,32 @@ template<class T> struct Mat {
 		return o;
 	}
 	T at(long i, long j) const { return before[static_cast<std::size_t>(i * C + j)]; }
-	// after the call: logical contents == expect (for inputs expect = before); nothing outside the view changed
-	template<class V> void check(V& v, std::vector<T> const& expect, bool output, Res& res) const {
-		std::vector<T> got = read(v);
-		for(std::size_t p = 0; p < got.size(); ++p) {
-			if(!(got[p] == expect[p])) {
-				std::string where = std::string(name) + "[" + std::to_string(static_cast<long>(p) / C) + "][" + std::to_string(static_cast<long>(p) % C) + "]";
-				if(output) { res.flag(got == before && !(expect == before) ? "output-untouched" : "wrong-result", where + " expected " + vstr(expect[p]) + " got " + vstr(got[p]) + " (was " + vstr(before[p]) + ")"); }
-				else { res.flag("input-modified", where + " was " + vstr(expect[p]) + " now " + vstr(got[p])); }
+	void guards(Res& res) const {
+		T const* d = st.data_elements();
+		for(std::size_t p = 0; p < raw0.size(); ++p) {
+			if(mask[p] == 0 && !(d[p] == raw0[p])) {
+				res.flag("guard-damage", std::string("store of ") + name + " (" + std::to_string(H) + "x" + std::to_string(W) + "): element outside the view at offset " + std::to_string(p) + " was " + vstr(raw0[p]) + " now " + vstr(d[p]));
+				for(std::size_t q = 0; q < raw0.size(); ++q) { if(mask[q] == 0 && !(d[q] == raw0[q]) && tripwire(static_cast<long>(q), W, H)) { res.escaped = true; } }
 				break;
 			}
 		}
-		T const* d = st.data_elements();
-		for(std::size_t p = 0; p < raw0.size(); ++p) {
-			if(mask[p] == 0 && !(d[p] == raw0[p])) { res.flag("guard-damage", std::string("store of ") + name + " element outside the view at offset " + std::to_string(p) + " was " + vstr(raw0[p]) + " now " + vstr(d[p])); break; }
+	}
+	// output operand: logical contents (through plain indexing) == expect; nothing outside the view changed
+	template<class V> void check_out(V& v, std::vector<T> const& expect, Res& res) const {
+		std::vector<T> got = read(v);
+		for(std::size_t p = 0; p < got.size(); ++p) {
+			if(!(got[p] == expect[p])) {
+				res.flag(got == before && !(expect == before) ? "output-untouched" : "wrong-result", std::string(name) + "[" + std::to_string(static_cast<long>(p) / C) + "][" + std::to_string(static_cast<long>(p) % C) + "] expected " + vstr(expect[p]) + " got " + vstr(got[p]) + " (was " + vstr(before[p]) + ")");
+				break;
+			}
 		}
+		guards(res);
+	}
+	// input operand: the whole store is bit-for-bit what it was
+	void check_in(Res& res) const {
+		T const* d = st.data_elements();
+		for(std::size_t p = 0; p < raw0.size(); ++p) { if(mask[p] != 0 && !(d[p] == raw0[p])) { res.flag("input-modified", std::string("input ") + name + ": element at store offset " + std::to_string(p) + " was " + vstr(raw0[p]) + " now " + vstr(d[p])); break; } }
+		guards(res);
 	}
 };
 
@@ -292,27 +325,27 @@ template<class T> std::vector<VL> vlayouts(bool conj_ok) {
 	for(int w = 0; w < ((is_cx<T>{} && conj_ok) ? 2 : 1); ++w) { for(int k = 0; k < NVK; ++k) { r.push_back(VL{k, w}); } }
 	return r;
 }
-// a logical vector of n elements:  unit: elements 2..2+n of a 1-D store;  stride2: every second element of a 1-D store (strided(2));  column: column 1, rows 1..1+n of an (n+2) x 3 store
+// a logical vector of n elements:  unit: elements 3..3+n of a 1-D store;  stride2: every second element (strided(2)) of a 1-D store;  column: column 1, rows 2..2+n of an (n+4) x 3 store
 template<class T> struct Vec {
-	long n; VL l;
+	long n; VL l; long W, H;
 	multi::array<T, 1> s1; multi::array<T, 2> s2;
 	std::vector<T>    raw0, before;
 	std::vector<char> mask;
 	char const* name;
-	Vec(char const* nm, VL l_, long n_, long padv) : n(n_), l(l_),
-		s1(multi::extensions_t<1>{multi::iextension{l_.kind == VU ? n_ + 4 : (l_.kind == VS ? 2 * n_ + 4 : 0)}}, mk<T>(padv, padv + 12)),
-		s2(l_.kind == VC ? multi::extensions_t<2>{n_ + 2, 3} : multi::extensions_t<2>{0, 0}, mk<T>(padv, padv + 12)), name(nm) {
-		mask.assign(static_cast<std::size_t>(nraw()), 0);
-		base_view([&](auto& v) { for(long i = 0; i < n; ++i) { mask[static_cast<std::size_t>(&v[i] - raw())] = 1; } });
+	Vec(char const* nm, VL l_, long n_, long padv) : n(n_), l(l_), W(l_.kind == VC ? 3 : 1), H(l_.kind == VU ? n_ + 6 : (l_.kind == VS ? 2 * n_ + 6 : n_ + 4)),
+		s1(multi::extensions_t<1>{multi::iextension{l_.kind == VC ? 0 : H}}, mk<T>(padv, padv + 12)),
+		s2(l_.kind == VC ? multi::extensions_t<2>{H, 3} : multi::extensions_t<2>{0, 0}, mk<T>(padv, padv + 12)), name(nm) {
+		mask.assign(static_cast<std::size_t>(W * H), 0);
+		for(long i = 0; i < n; ++i) { mask[static_cast<std::size_t>(off(i))] = 1; }
 	}
-	T*   raw() { return l.kind == VC ? s2.data_elements() : s1.data_elements(); }
+	long off(long i) const { return l.kind == VU ? 3 + i : (l.kind == VS ? 3 + 2 * i : (2 + i) * 3 + 1); }
+	T*       raw() { return l.kind == VC ? s2.data_elements() : s1.data_elements(); }
 	T const* raw() const { return l.kind == VC ? s2.data_elements() : s1.data_elements(); }
-	long nraw() const { return l.kind == VC ? s2.num_elements() : s1.num_elements(); }
 	template<class F> void base_view(F&& f) {
 		switch(l.kind) {
-			case VU: { auto&& v = s1({2, 2 + n}); f(v); break; }
-			case VS: { auto&& v = s1({2, 2 + 2 * n}).strided(2); f(v); break; }
-			default: { auto&& v = (~s2)[1]({1, 1 + n}); f(v); break; }
+			case VU: { auto&& v = s1({3, 3 + n}); f(v); break; }
+			case VS: { auto&& v = s1({3, 3 + 2 * n}).strided(2); f(v); break; }
+			default: { auto&& v = (~s2)[1]({2, 2 + n}); f(v); break; }
 		}
 	}
 	template<bool Conj, class F> void view(F&& f) {
@@ -321,31 +354,43 @@ template<class T> struct Vec {
 			f(v);
 		});
 	}
-	template<class V, class G> void fill(V& v, G gen) {
-		for(long i = 0; i < n; ++i) { v[i] = gen(i); }
+	template<class V, class G> void fill(V& v, G gen, Res& res) {
+		T* d = raw();
+		for(long i = 0; i < n; ++i) { T x = gen(i); d[off(i)] = (l.wrap == WI ? x : cj(x)); }
+		raw0.assign(d, d + W * H);
 		before = read(v);
-		raw0.assign(raw(), raw() + nraw());
+		for(long i = 0; i < n; ++i) { if(!(at(i) == gen(i))) { res.flag("view-mismatch", std::string(name) + "[" + std::to_string(i) + "] reads " + vstr(at(i)) + " after " + vstr(gen(i)) + " was stored (harness or view defect)"); return; } }
 	}
-	template<class V> std::vector<T> read(V& v) const {  // (indexing a const conjugated view does not compile on this tree)
+	template<class V> std::vector<T> read(V& v) const {
 		std::vector<T> o(static_cast<std::size_t>(n));
 		for(long i = 0; i < n; ++i) { o[static_cast<std::size_t>(i)] = static_cast<T>(v[i]); }
 		return o;
 	}
 	T at(long i) const { return before[static_cast<std::size_t>(i)]; }
-	template<class V> void check(V& v, std::vector<T> const& expect, bool output, Res& res) const {
-		std::vector<T> got = read(v);
-		for(std::size_t p = 0; p < got.size(); ++p) {
-			if(!(got[p] == expect[p])) {
-				std::string where = std::string(name) + "[" + std::to_string(p) + "]";
-				if(output) { res.flag(got == before && !(expect == before) ? "output-untouched" : "wrong-result", where + " expected " + vstr(expect[p]) + " got " + vstr(got[p]) + " (was " + vstr(before[p]) + ")"); }
-				else { res.flag("input-modified", where + " was " + vstr(expect[p]) + " now " + vstr(got[p])); }
+	void guards(Res& res) const {
+		T const* d = raw();
+		for(std::size_t p = 0; p < raw0.size(); ++p) {
+			if(mask[p] == 0 && !(d[p] == raw0[p])) {
+				res.flag("guard-damage", std::string("store of ") + name + ": element outside the view at offset " + std::to_string(p) + " of " + std::to_string(raw0.size()) + " was " + vstr(raw0[p]) + " now " + vstr(d[p]));
+				for(std::size_t q = 0; q < raw0.size(); ++q) { if(mask[q] == 0 && !(d[q] == raw0[q]) && tripwire(static_cast<long>(q), W, H)) { res.escaped = true; } }
 				break;
 			}
 		}
-		T const* d = raw();
-		for(std::size_t p = 0; p < raw0.size(); ++p) {
-			if(mask[p] == 0 && !(d[p] == raw0[p])) { res.flag("guard-damage", std::string("store of ") + name + " element outside the view at offset " + std::to_string(p) + " was " + vstr(raw0[p]) + " now " + vstr(d[p])); break; }
+	}
+	template<class V> void check_out(V& v, std::vector<T> const& expect, Res& res) const {
+		std::vector<T> got = read(v);
+		for(std::size_t p = 0; p < got.size(); ++p) {
+			if(!(got[p] == expect[p])) {
+				res.flag(got == before && !(expect == before) ? "output-untouched" : "wrong-result", std::string(name) + "[" + std::to_string(p) + "] expected " + vstr(expect[p]) + " got " + vstr(got[p]) + " (was " + vstr(before[p]) + ")");
+				break;
+			}
 		}
+		guards(res);
+	}
+	void check_in(Res& res) const {
+		T const* d = raw();
+		for(std::size_t p = 0; p < raw0.size(); ++p) { if(mask[p] != 0 && !(d[p] == raw0[p])) { res.flag("input-modified", std::string("input ") + name + ": element at store offset " + std::to_string(p) + " was " + vstr(raw0[p]) + " now " + vstr(d[p])); break; } }
+		guards(res);
 	}
 };
 
@@ -371,7 +416,6 @@ static long g_vec_max   = 4;       // vector lengths 0..g_vec_max
 static bool g_thorough  = false;
 struct SectionCount { std::string name; long n; };
 static std::vector<SectionCount> g_sections;
-static void sample_maybe(Desc const& d) { (void)d; }
 
 // ================================================================================================ GEMM
 // C (m x n) <- alpha A (m x k) B (k x n) + beta C
@@ -397,11 +441,11 @@ void grid_gemm(std::string const& form, bool has_beta, int beta_fixed, Call call
 	for(ML la : LA) { for(ML lb : LB) { for(ML lc : LC) {
 	for(int ia = 0; ia < ns; ++ia) { for(int ib = 0; ib < (has_beta ? ns : 1); ++ib) {
 		int const ibeta = has_beta ? ib : beta_fixed;
-		D.step(m >= 1 && k >= 1 && n >= 1,
+		D.step(m * 100 + k * 10 + n, m >= 1 && k >= 1 && n >= 1,
 			[&] {
 				Desc d;
 				d.id = form + "/" + tcode<T>() + "/A=" + lname(la) + ",B=" + lname(lb) + ",C=" + lname(lc) + "/m" + std::to_string(m) + "k" + std::to_string(k) + "n" + std::to_string(n) + "/a=" + sc_name[ia] + (has_beta ? std::string(",b=") + sc_name[ibeta] : std::string());
-				d.keyprefix = form + "|" + tname<T>() + "|A=" + lname(la) + ",B=" + lname(lb) + ",C=" + lname(lc) + "|m=" + szc(m) + ",k=" + szc(k) + ",n=" + szc(n) + "|alpha" + sc_class(ia) + (has_beta ? ",beta" + sc_class(ibeta) : std::string());
+				d.keyprefix = form + "|" + tname<T>() + "|A=" + cname(la) + ",B=" + cname(lb) + ",C=" + cname(lc) + "|m=" + szc(m) + ",k=" + szc(k) + ",n=" + szc(n) + "|" + (has_beta ? "beta" + sc_class(ibeta) : "alpha" + sc_class(ia));
 				d.fields = {{"operation", form + ": C(m x n) <- alpha A(m x k) B(k x n) + beta C"}, {"element_type", tname<T>()}, {"layouts", "A=" + lname(la) + " B=" + lname(lb) + " C=" + lname(lc)},
 					{"sizes", "m=" + std::to_string(m) + " k=" + std::to_string(k) + " n=" + std::to_string(n)}, {"scalars", std::string("alpha=") + sc_name[ia] + " beta=" + sc_name[ibeta] + (has_beta ? "" : " (implied by the form)")}};
 				return d;
@@ -411,10 +455,11 @@ void grid_gemm(std::string const& form, bool has_beta, int beta_fixed, Call call
 				T const alpha = scal_of<T>(ia), beta = scal_of<T>(ibeta);
 				Mat<T> A("A", la, m, k, PAD_A), B("B", lb, k, n, PAD_B), C("C", lc, m, n, PAD_C);
 				A.template view<true>([&](auto& a) { B.template view<true>([&](auto& b) { C.template view<ConjC>([&](auto& c) {
-					A.fill(a, genA<T>); B.fill(b, genB<T>); C.fill(c, genC<T>);
+					A.fill(a, genA<T>, res); B.fill(b, genB<T>, res); C.fill(c, genC<T>, res);
+					if(res.code != 0) { return; }
 					auto expect = ref_gemm(alpha, A, B, beta, C);
 					if(!ran(guarded([&] { call(alpha, a, b, beta, c); }), res)) { return; }
-					C.check(c, expect, true, res); A.check(a, A.before, false, res); B.check(b, B.before, false, res);
+					C.check_out(c, expect, res); A.check_in(res); B.check_in(res);
 				}); }); });
 				return res;
 			});
@@ -443,7 +488,12 @@ int main(int argc, char** argv) {
 	D.init();
 	D.nshards = std::max(1L, args.geti("nshards", 1)); D.shard = args.geti("shard", 0) % D.nshards; D.batch = std::max(1L, args.geti("batch", 256));
 	std::string rp = args.get("replay", args.get("replay-trace", ""));
-	if(!rp.empty()) { D.mode = Driver::REPLAY; D.replay = rp; g_sizes_max = 3; }
+	if(!rp.empty()) { D.mode = Driver::REPLAY; D.replay = rp; D.repeat = args.geti("repeat", 1); g_sizes_max = 3;
+		// tag = the digits of the 4th '/'-separated component (the sizes)
+		std::vector<std::string> parts; { std::istringstream is(rp); std::string t; while(std::getline(is, t, '/')) { parts.push_back(t); } }
+		long tag = 0; if(parts.size() >= 4) { for(char ch : parts[3]) { if(ch >= '0' && ch <= '9') { tag = tag * 10 + (ch - '0'); } } }
+		D.replay_tag = tag;
+	}
 
 	all_sections<double>(); all_sections<std::complex<double>>();
 	if(g_thorough || D.mode == Driver::REPLAY) { all_sections<float>(); all_sections<std::complex<float>>(); }
